@@ -104,6 +104,17 @@ def run_case(tape, tier):
                     res.scenario = dict(senders=cfg, memo=text)
                     return res
                 after = len(net.wire)
+                if after == before:
+                    # a memo was queued and the transmit side serviced with an always-accepting transport: it must be on the wire
+                    res.violate("memo-not-transmitted", "a %d character memo was queued (code %s, gram size %d) but serviceAllTx put no gram on the wire" % (
+                        len(text), s["code"], s["size"]))
+                    rx.close()
+                    for t in senders:
+                        t["pm"].close()
+                    res.scen_digest = digest(dict(c=cfg, t=text))
+                    res.event_digest = res.scen_digest
+                    res.scenario = dict(senders=cfg, memo=text)
+                    return res
                 memos[mid_counter] = dict(text=text, src=s["pm"].ha, vid=s["vid"], count=after - before, signed=s["signed"],
                                           wire=list(range(before, after)), sender=si)
                 mid_counter += 1
@@ -126,6 +137,16 @@ def run_case(tape, tier):
         # late duplicates (possibly after the memo completed)
         for _ in range(tape.geometric("late_dups", 6, 2, 3)):
             order.append(pool[tape.draw("late_dup", len(pool))])
+        ndup = len(order) - len(pool)
+        if ndup > 0:
+            res.faults["datagram_duplicated"] += ndup
+        inorder = [g for g in pool]
+        seen_once = []
+        for g in order:
+            if g not in seen_once:
+                seen_once.append(g)
+        if seen_once != inorder:
+            res.faults["datagrams_reordered"] += sum(1 for a, b in zip(seen_once, inorder) if a != b)
         every = 1 + tape.draw("service_every", 6)
         deliveries = []
         delivered_once = {mid: set() for mid in memos}
